@@ -105,6 +105,20 @@ func compressJobs(tier, prop string) []*Job {
 		}
 		periodic([]int{0, 1, 3, 4}, func(n int) []int { return []int{-1} })
 		litrun([]int{0, 3}, func(l, n int) []int { return []int{-1} })
+		// window family: sources just over 64 KiB (concrete periodic filler) holding the same
+		// 8-byte window twice, 65534..65537 bytes apart, the second copy where the scan probes
+		for _, d := range []int{65534, 65535, 65536, 65537} {
+			for _, kind := range []int{0, 1, 3} {
+				depth := 0
+				if kind == 3 {
+					depth = 1
+				}
+				addP(16+d+8+40, kind, depth, -1, d, 0, "verif,noasm")
+				jobs[len(jobs)-1].Unwind = 3000000
+			}
+			addP(16+d+8+40, 0, 0, -1, d, 0, "verif")
+			jobs[len(jobs)-1].Unwind = 3000000
+		}
 	case "C10":
 		for n := 0; n <= nf-1; n++ {
 			for _, dl := range []int{-1, -2, n, n - 3, n / 2} {
@@ -235,6 +249,23 @@ func detJobs(tier string) []*Job {
 			}
 		}
 	}
+	// frame level, sequential: the same input delivered in two ways (no Flush) gives identical frames
+	fr := &lcg{s: 4242}
+	for _, n := range []int{0, 1, 7, 40} {
+		for _, pair := range [][2]int{{0, 1}, {0, 8}, {0, 4}, {1, 5}, {4, 7}, {1, 8}} {
+			if n == 40 && pair[1] == 8 && tier != "thorough" {
+				continue
+			}
+			period := 0
+			if n == 40 {
+				period = 2
+			}
+			j := mkJob(fmt.Sprintf("fdet-n%d-%dv%d", n, pair[0], pair[1]), "H_frame_det", "", "verif,noasm",
+				P("n", n, "period", period, "bs", 4+fr.next(4), "bc", fr.next(2), "cc", fr.next(2), "sizeopt", fr.next(2), "level", fr.next(2), "legacy", 0, "delivA", pair[0], "delivB", pair[1], "k", fr.next(n+1), "k2", fr.next(n+1)))
+			j.Unwind = 6000
+			jobs = append(jobs, j)
+		}
+	}
 	for n := 0; n <= nh; n++ {
 		for _, d := range []int{0, 1, 2, 512} {
 			if tier != "thorough" && n > 14 && d == 1 {
@@ -272,6 +303,7 @@ func compressBounds(prop string) func(string) []string {
 			"periodic family: sources of 24..300 (thorough ..560) bytes = a symbolic first period (1,2,3 bytes; thorough 4) repeated, plus 0..13 free symbolic bytes at the end (0..5 for reused-state and HC runs) (long matches, multi-byte length codes, matches running into the last 5/12 bytes)",
 			"literal-run family: a literal run of exactly l concrete repeat-free bytes (l around 15 and 15+255: 13..17, 30, 269..271) followed by a match and 0/2 symbolic bytes, with destination lengths 0..5, l..l+8, n/2, bound-2..bound (C11)",
 			"history family (C14): the same object first compresses another (periodic) source into a destination that is too short (or large enough), then the source under test; compared with a fresh object",
+			"window family (C01): sources of 65.6 KB (concrete periodic filler) containing the same 8-byte window twice at a distance of 65534/65535/65536/65537 bytes, placed so that the scan probes the second copy; fast (fresh, reused) and HC; both decoders",
 			"compressor states: fresh object; reused object with arbitrary prior table contents (SMT arrays); package-level function with such an object sitting in the pool",
 			"destination: prior contents arbitrary, 16 bytes of spare capacity holding arbitrary canary bytes; lengths as listed per job (bound, bound-1, around len(src), small)",
 			"both block decoders on the way back (portable SSA; amd64 assembly via asmsym) for C01",
@@ -298,7 +330,7 @@ func init() {
 		switch prop {
 		case "C01":
 			filter = func(id string) bool {
-				return hasPrefix(id, "roundtrip") || id == "bound-size-succeeds" || hasPrefix(id, "no-panic") || hasPrefix(id, "asm-") || hasPrefix(id, "unwind")
+				return hasPrefix(id, "roundtrip") || hasPrefix(id, "block-decodes") || id == "bound-size-succeeds" || hasPrefix(id, "no-panic") || hasPrefix(id, "asm-") || hasPrefix(id, "unwind")
 			}
 		case "C10":
 			filter = func(id string) bool { return id == "block-strictly-valid" || id == "block-decodes" || id == "block-decodes-to-source" }
@@ -318,7 +350,7 @@ func init() {
 		Property: "C14",
 		Jobs:     detJobs,
 		Bounds:   compressBounds("C14"),
-		Outside:  append([]string{"frame level: independence from concurrency level and goroutine scheduling (no goroutines in the executor)"}, compressOutside...),
+		Outside:  append([]string{"frame level: independence from concurrency level and goroutine scheduling (no goroutines in the executor); only the sequential clause (same input split differently across Write/ReadFrom calls, 24 pairs of delivery shapes) is checked at frame level"}, compressOutside...),
 		Assumptions: compressAssumptions,
 	}
 }
